@@ -693,6 +693,7 @@ func (n *BitcoinNode) completeBlock(ctx context.Context, blockHash *bitcoin.Hash
 		n.requestTime = nil
 		n.blockRequest = nil
 		n.blockReader = nil
+		n.blockStarted = false
 		delete(n.handlers, wire.CmdBlock)
 		n.blockHandler = nil
 		n.blockOnStop = nil
@@ -766,6 +767,16 @@ func (n *BitcoinNode) handleBlock(ctx context.Context, header *wire.MessageHeade
 		logger.Verbose(ctx, "Aborting block download (read tx count) : %s", err)
 		return errors.Wrap(errors.Wrap(err, blockHash.String()), "read tx count")
 	}
+
+	n.Lock()
+	if n.blockHandler == nil {
+		// Block cancelled while the tx count was read. The cancel reported "not started".
+		n.Unlock()
+		logger.Verbose(ctx, "Aborting block (cancelled before handler started)")
+		return nil
+	}
+	n.blockStarted = true
+	n.Unlock()
 
 	var wait sync.WaitGroup
 	txChannel := make(chan *wire.MsgTx, 1000)
